@@ -439,13 +439,14 @@ func (s *Solver) SolvePortfolio(vs []Variant) Answer {
 		}
 		os.WriteFile(files[i], []byte(v.Query), 0o644)
 	}
+	proved := false
 	defer func() {
 		if os.Getenv("GOVC_KEEP") != "" {
 			return
 		}
-		for i, f := range files {
-			if f != file {
-				_ = i
+		for _, f := range files {
+			// the full query is kept only when it was not proved (for diagnosis and replay)
+			if f != file || proved {
 				os.Remove(f)
 			}
 		}
@@ -460,6 +461,7 @@ func (s *Solver) SolvePortfolio(vs []Variant) Answer {
 		ms             int64
 	}
 	finish := func(r res) Answer {
+		proved = r.r == "unsat"
 		a := Answer{Result: r.r, Solver: r.solver, Output: r.out, File: file, Ms: r.ms}
 		if r.r != "unsat" && r.r != "sat" {
 			a.Ms = time.Since(start).Milliseconds()
